@@ -20,7 +20,8 @@ CHECKS = {
         technique="explicit-state search with state merging: columns = bytes delivered, every chunk s[k:j] from every column on the real session",
         text="For each stream (1-3 messages, both roles, on/off PDU boundaries, long-form lengths) every chunk s[k:j] for all k<=j, in "
         "three container flavours (bytes, reused bytearray, memoryview), is delivered to a copy of column k's real session; each edge must "
-        "reproduce column j's canonical state and cumulative messages. By induction this covers all 2^(n-1) partitions of the stream.",
+        "reproduce column j's cumulative messages and its state (structurally equal, or - if the representation differs - indistinguishable in visible attributes, pending output and "
+        "on a fixed set of continuations of the stream). With structurally equal states this covers all 2^(n-1) partitions by induction.",
         note="Streams are a finite catalogue drawn from U (44 quick / ~300 thorough); well-formed streams only (terminators are C05/C08).",
     ),
     "C03": dict(
@@ -61,21 +62,23 @@ CHECKS = {
         note="Oracle = int.to_bytes/from_bytes and base-128/base-256 arithmetic in vf/ref/ber.py.",
     ),
     "C08": dict(
-        technique="explicit-state BFS to a fixpoint over the real LDAPClient / LDAPServer with transition monitors (ghost variables)",
+        technique="explicit-state BFS to a fixpoint over the real LDAPClient / LDAPServer with transition monitors (ghost variables); plus a TLA+ model of the life cycle checked by TLC and bound to the code by exhaustive product exploration of its dumped state graph with the real objects",
         text="All reachable states of one session for <=K requests (client K=3/4, server ids 0..2/3) under the full alphabet of calls and "
         "deliveries (every message kind x every candidate id, plus garbage); lifecycle clauses (a)-(h) of DESIGN C08 are evaluated on every edge. "
-        "Every newly found state is re-derived by replaying its history on a fresh object (conformance).",
+        "Every newly found state is re-derived by replaying its history on a fresh object (conformance). Independently, tla/Lifecycle.tla states the documented "
+        "machine; TLC checks 17 action properties on all its states (ids 0..2 / 0..3); every edge of its state graph is then replayed against the real object in every "
+        "reachable product state (whole, split and long-form deliveries): acceptance, error class, state, emitted message and id must agree, and every model edge must be reached.",
         note="Whole-PDU deliveries; outgoing buffer drained after each event; violating edges are not expanded unless a listed known finding.",
     ),
     "C09": dict(
-        technique="explicit-state BFS to a fixpoint over the real LDAPClient with id/correlation monitors",
+        technique="explicit-state BFS to a fixpoint over the real LDAPClient with id/correlation monitors; plus the TLC-checked TLA+ life-cycle model bound to the code by exhaustive product exploration",
         text="Same client search as C08; on every edge: ids returned are positive, strictly increasing and equal to the id in the emitted bytes "
         "(reference decoder); a response is accepted iff the ghost says its id is in progress (unknown where the property is silent); rejected "
         "responses and all request-type messages raise ProtocolError and close.",
         note="Candidate ids 0..K+1 for every response kind.",
     ),
     "C10": dict(
-        technique="explicit-state BFS to a fixpoint over both real sessions with wire-effect monitors",
+        technique="explicit-state BFS to a fixpoint over both real sessions with wire-effect monitors; plus the TLC-checked TLA+ life-cycle model bound to the code by exhaustive product exploration",
         text="Same searches as C08; on every edge: a refused call leaves the drained outgoing stream empty and raises only LDAPError; an accepted "
         "server response implies its id is outstanding in the ghost, carries that id on the wire, and a final response retires it.",
         note="Kind-mismatched responses may be accepted or cleanly refused (the property does not say which).",
@@ -90,7 +93,8 @@ CHECKS = {
     "C12": dict(
         technique="explicit-state BFS over a real session with the outgoing buffer kept in the state; drain amounts as events",
         text="Send calls (accepted and refused) and data_to_send(a) for a in {None,0,1,2,pending-1,pending,pending+1,10^6} up to 2 (3) sends; "
-        "invariant on every edge: pending bytes == concatenation of accepted sends minus bytes drained; draining never changes protocol state.",
+        "invariant on every edge: pending bytes == concatenation of accepted sends minus bytes drained; the session stays indistinguishable (acceptance of every send, visible state, "
+        "encoding) from a twin that received the same sends and was drained completely after each; the encoding of each accepted call equals an independent reference encoding.",
         note="Negative amounts are outside the property's domain.",
     ),
     "C13": dict(
